@@ -34,7 +34,10 @@ struct Obj {
 	int family = 0;                     // objects related by QScopy_prob share a family
 	bool reporter_installed = false; int reporter_skip = 100;
 	bool broken = false;                // a violation left model and object out of sync: stop judging it
+	int from_file_chain = 0;            // how many write/read hops lie behind this object
 };
+
+struct FileInfo { std::string kind = "prob", fmt; LP model; bool damaged = false, precond = false, foreign = false; int chain = 0; std::string cstat, rstat; };
 
 struct Client { std::vector<std::shared_ptr<Obj>> objs; std::vector<StoredBasis> bases; };
 
@@ -61,6 +64,12 @@ private:
 	const Plan &plan; bool trace; World world; Fnv th; int step = 0; const Op *op = 0; int next_uid = 1;
 	std::map<int, Client> clients;
 	std::map<int, LP> lps; bool stop = false;
+	std::map<std::string, FileInfo> files;   // what the harness knows about each SimDisk path
+	std::vector<std::string> prob_paths;      // problem files in write order
+	std::string io_path(const Op *o, const char *fmt_ext);
+	void arm_file_faults(const std::string &path);
+	bool roundtrip_precondition(const LP &m);
+	std::string roundtrip_diff(const LP &want, const LP &got, bool native_ranges);
 	std::map<std::string, RefResult> ref_cache;
 	struct Outcome { std::string how, config; int status; Q value; int step; };
 	std::map<std::string, std::vector<Outcome>> outcomes;   // C04: canonical LP -> definitive outcomes
